@@ -147,7 +147,34 @@ func (h *hist) afterStep(c *cl, what string) {
 					c.h, c.c.GroupName(), c.perms, p, h.pendingMods[c.h]))
 			}
 		}
+		// the last accepted moderation of each family decides whether the
+		// permission is held once the target has served its queue
+		if !c.c.Dead && c.c.HasGroup() {
+			last := map[string]string{}
+			for i, g := range h.pendingMods[c.h] {
+				if g != c.c.GroupName() {
+					continue
+				}
+				k := h.pendingKinds[c.h][i]
+				switch k {
+				case "op", "unop":
+					last["op"] = k
+				case "present", "unpresent":
+					last["present"] = k
+				case "shutup", "unshutup":
+					last["message"] = k
+				}
+			}
+			for perm, k := range last {
+				h.t.Checked("C11.moderation_applied")
+				grant := k == "op" || k == "present" || k == "unshutup"
+				if has(p, perm) != grant {
+					h.t.Fail("C11", "moderation_applied", fmt.Sprintf("client %d served its queue after an operator's %s: permissions %v", c.h, k, p))
+				}
+			}
+		}
 		delete(h.pendingMods, c.h)
+		delete(h.pendingKinds, c.h)
 		// revocation: once told that `present` is gone, no up stream is left
 		for _, m := range c.msgs {
 			if m.Type == "joined" && m.Kind == "change" && !has(m.Permissions, "present") {
@@ -294,6 +321,7 @@ func (h *hist) send(c *cl, m *smsg) sendResult {
 	if m.Type == "useraction" && isPermKind(m.Kind) && sr.auth == "passed" && sr.grp != "" {
 		if t := h.handleOf(m.Dest, sr.grp); t >= 0 {
 			h.pendingMods[t] = append(h.pendingMods[t], sr.grp)
+			h.pendingKinds[t] = append(h.pendingKinds[t], m.Kind)
 		}
 	}
 	return sr
